@@ -137,3 +137,90 @@ async fn verif_model_header_ex_retries() {
     }
     println!("ENUM-OK cases={attempts_total}");
 }
+
+// ---------------------------------------------------------------------------------------------
+// Witness finder / bounded stand-in for C31: random trusted / untrusted, connected / unconnected peers, 1-3 concurrent
+// head callers, every head request answered by a random valid header (several peers may agree), a fork at the same
+// height, a two-header answer, a not-found answer or a failure.  Oracle: the best-head rule applied to the answers.
+// ---------------------------------------------------------------------------------------------
+#[async_test]
+async fn verif_model_header_ex_head_selection() {
+    let seed: u64 = std::env::var("VERIF_SEED").ok().and_then(|s| s.parse().ok()).unwrap_or(0);
+    let rounds: u64 = std::env::var("VERIF_ROUNDS").ok().and_then(|s| s.parse().ok()).unwrap_or(60);
+    let mut generator = ExtendedHeaderGenerator::new_from_height(3);
+    let mut pool: Vec<ExtendedHeader> = Vec::new();
+    for _ in 0..5 { let h = generator.next(); pool.push(generator.another_of(&h)); pool.push(h); }
+    let mut answered_rounds = 0u64;
+    for round in 0..rounds {
+        let mut rng = XorShiftC(0xC2B2AE3D27D4EB4F ^ seed.wrapping_mul(6151).wrapping_add(round + 1));
+        let event_channel = EventChannel::new();
+        let mut tracker = PeerTracker::new(event_channel.publisher());
+        let mut flags = std::collections::HashMap::new();
+        for k in 0..(1 + rng.below(12)) {
+            let p = PeerId::random();
+            let connected = rng.below(5) != 0;
+            let trusted = rng.below(3) != 0;
+            if connected { tracker.add_connection(&p, ConnectionId::new_unchecked(k as usize + 1)); }
+            tracker.set_trusted(&p, trusted);
+            flags.insert(p, (connected, trusted));
+        }
+        let mut sender = RecordingSender::default();
+        let mut handler = HeaderExClientHandler::<RecordingSender>::new();
+        let ncallers = 1 + rng.below(3);
+        let mut rxs = Vec::new();
+        for _ in 0..ncallers { let (tx, rx) = oneshot::channel(); handler.on_send_request(HeaderRequest::head_request(), tx); rxs.push(rx); }
+        handler.schedule_pending_requests(&mut sender, &tracker);
+        // C31: only connected trusted peers are asked
+        for (id, peer, _) in sender.sent.iter() {
+            let (c, t) = flags[peer];
+            if !(c && t) { println!("WITNESS C31: head request {id} was sent to a peer that is connected={c} trusted={t} (seed {seed}, round {round})"); panic!("witness"); }
+        }
+        // answers
+        let mut reported: Vec<ExtendedHeader> = Vec::new();
+        let narrow = rng.below(2) == 0;   // few distinct headers: agreement is likely
+        let sent: Vec<(u64, PeerId, u64)> = sender.sent.clone();
+        for (id, peer, _) in sent {
+            match rng.below(8) {
+                0 => handler.on_failure(peer, id, OutboundFailure::Timeout),
+                1 => handler.on_response_received(peer, id, vec![HeaderResponse { body: vec![], status_code: StatusCode::NotFound.into() }]),
+                2 => handler.on_response_received(peer, id, vec![pool[0].to_header_response(), pool[2].to_header_response()]),
+                _ => {
+                    let h = &pool[rng.below(if narrow { 4 } else { pool.len() as u64 }) as usize];
+                    reported.push(h.clone());
+                    handler.on_response_received(peer, id, vec![h.to_header_response()]);
+                }
+            }
+        }
+        for _ in 0..60 { let _ = futures::poll!(std::future::poll_fn(|cx| handler.poll(cx))); tokio::task::yield_now().await; }
+        let mut answers = Vec::new();
+        for rx in rxs.iter_mut() { if let Ok(a) = rx.try_recv() { answers.push(a); } }
+        let ctx = format!("seed {seed}, round {round}, reported heights {:?}", reported.iter().map(|h| h.height()).collect::<Vec<_>>());
+        if reported.is_empty() || sender.sent.is_empty() {
+            if !answers.is_empty() && sender.sent.is_empty() { println!("WITNESS C31: callers were answered although no trusted peer was asked ({ctx})"); panic!("witness"); }
+            continue;
+        }
+        if answers.len() as u64 != ncallers { println!("WITNESS C31: {} of {ncallers} waiting callers were answered ({ctx})", answers.len()); panic!("witness"); }
+        let votes = |x: &ExtendedHeader| reported.iter().filter(|y| y.hash() == x.hash()).count();
+        let agreed_max = reported.iter().filter(|x| votes(x) >= 2).map(|x| x.height()).max();
+        let overall_max = reported.iter().map(|x| x.height()).max().unwrap();
+        let mut first: Option<ExtendedHeader> = None;
+        for a in answers {
+            let v = match a { Ok(v) => v, Err(e) => { println!("WITNESS C31: a caller received the error {e} although peers reported usable heads ({ctx})"); panic!("witness"); } };
+            if v.len() != 1 { println!("WITNESS C31: a caller received {} headers ({ctx})", v.len()); panic!("witness"); }
+            let got = v.into_iter().next().unwrap();
+            if !reported.iter().any(|y| y.hash() == got.hash()) { println!("WITNESS C31: the answer (height {}) was not reported by any peer ({ctx})", got.height()); panic!("witness"); }
+            match agreed_max {
+                Some(m) => if votes(&got) < 2 || got.height() != m {
+                    println!("WITNESS C31: the answer has height {} and {} votes, but the highest header reported by at least two peers has height {m} ({ctx})", got.height(), votes(&got)); panic!("witness");
+                },
+                None => if got.height() != overall_max {
+                    println!("WITNESS C31: no header was reported twice; the answer has height {} but the highest reported is {overall_max} ({ctx})", got.height()); panic!("witness");
+                },
+            }
+            if let Some(f) = &first { if f.hash() != got.hash() { println!("WITNESS C31: two waiting callers received different heads ({ctx})"); panic!("witness"); } }
+            first = Some(got);
+        }
+        answered_rounds += 1;
+    }
+    println!("ENUM-OK cases={answered_rounds}");
+}
